@@ -187,6 +187,28 @@ pub fn partial_binding_bodies() -> Vec<Expr> {
         Box::new(|x| Expr::When(Rc::new(Expr::Var("a".into())), vec![(Pat::Int(0), x), (Pat::Discard, Expr::Int(7.into()))])),
         Box::new(|x| Expr::If(Rc::new(Expr::Bin(Op::And, Rc::new(Expr::Var("p".into())), Rc::new(Expr::Bin(Op::Gt, Rc::new(x), Rc::new(Expr::Int(0.into())))))), Rc::new(Expr::Int(1.into())), Rc::new(Expr::Int(2.into())))),
         Box::new(|x| Expr::Bin(Op::Add, Rc::new(x), Rc::new(Expr::Int(1.into())))),
+        // captured by a closure that is called on some paths only
+        Box::new(|x| {
+            let call = || Expr::Call(Rc::new(Expr::Var("f".into())), vec![]);
+            Expr::Let(Pat::Var("f".into()), Rc::new(Expr::Lam(vec![], Rc::new(x))), Rc::new(Expr::If(Rc::new(Expr::Var("p".into())), Rc::new(call()), Rc::new(Expr::Int(0.into())))))
+        }),
+        Box::new(|x| {
+            let call = || Expr::Call(Rc::new(Expr::Var("f".into())), vec![]);
+            Expr::Let(
+                Pat::Var("f".into()),
+                Rc::new(Expr::Lam(vec![], Rc::new(x))),
+                Rc::new(Expr::If(Rc::new(Expr::Bin(Op::Gt, Rc::new(Expr::Var("a".into())), Rc::new(Expr::Int(0.into())))), Rc::new(Expr::Bin(Op::Mul, Rc::new(call()), Rc::new(Expr::Var("a".into())))), Rc::new(Expr::If(Rc::new(Expr::Var("p".into())), Rc::new(Expr::Bin(Op::Sub, Rc::new(call()), Rc::new(Expr::Int(1.into())))), Rc::new(Expr::Int(0.into())))))),
+            )
+        }),
+        // the same behind a guard whose failing branch is a bare `fail`
+        Box::new(|x| {
+            let call = || Expr::Call(Rc::new(Expr::Var("f".into())), vec![]);
+            Expr::If(
+                Rc::new(Expr::Bin(Op::Ge, Rc::new(Expr::Var("a".into())), Rc::new(Expr::Int(0.into())))),
+                Rc::new(Expr::Let(Pat::Var("f".into()), Rc::new(Expr::Lam(vec![], Rc::new(x))), Rc::new(Expr::If(Rc::new(Expr::Var("p".into())), Rc::new(Expr::Bin(Op::Add, Rc::new(call()), Rc::new(call()))), Rc::new(Expr::Int(0.into())))))),
+                Rc::new(Expr::Fail),
+            )
+        }),
     ];
     let mut out = vec![];
     for pexp in &partials {
